@@ -66,6 +66,7 @@ type GenCfg struct {
 	BigIdx       bool
 	Rounds       bool      // round-based creation: every validator creates one event per round on top of the previous round
 	SealAtCascade bool     // the application seals at the first block (frame >= 2) that the generator instance decides as a second or later block of one Process call
+	LateJoin     float64   // probability that a validator creates its first event only after a third to two thirds of the budget
 	Stall        int       // after the first round, a minority of the validators gossips alone for this many events (no frame can advance), then everybody returns
 	LagHeavy     bool      // the heaviest validator (first in canonical order) is slow
 	NapProb      float64   // probability (per own event) that a validator falls asleep for a long stretch and later wakes up seeing all heads
@@ -257,6 +258,18 @@ func Generate(r *rand.Rand, cfg GenCfg, rec *Recorder) *Scenario {
 			group[v.ID] = r.Intn(2)
 		}
 		asleepUntil := map[idx.ValidatorID]int{}
+		joinAt := map[idx.ValidatorID]int{}
+		if cfg.LateJoin > 0 {
+			late, lw := 0, 0
+			for _, v := range vals {
+				// keep a quorum of early validators, otherwise nothing advances before the joiners arrive
+				if r.Float64() < cfg.LateJoin && 3*(lw+int(v.W)) < total {
+					joinAt[v.ID] = cfg.EpochEvents/3 + r.Intn(cfg.EpochEvents/3+1)
+					late++
+					lw += int(v.W)
+				}
+			}
+		}
 		if cfg.Stall > 0 {
 			// put validators to sleep, heaviest first, until the awake ones hold less than a quorum
 			byW := append([]ValW{}, vals...)
@@ -318,6 +331,9 @@ func Generate(r *rand.Rand, cfg GenCfg, rec *Recorder) *Scenario {
 					continue
 				}
 				if cfg.Sleeper && c.ID == sorted[0].ID && len(own[c.ID]) > 0 && n < budget-3 {
+					continue
+				}
+				if at, ok := joinAt[c.ID]; ok && n < at {
 					continue
 				}
 				if until, ok := asleepUntil[c.ID]; ok {
